@@ -12,6 +12,10 @@ Mechanism A (universe export):
    s1 + (s2 + s3), MultiSweep(s1, s2.combine(s3))), and in mode "hist" TLC explores histories of sums formed step
    by step over operands AND earlier results (NextHist); each reachable state is replayed on real objects that are
    kept alive, and after every step every object must still enumerate what the store of the state says.
+4. Mode "phist" does the same for histories whose steps are x.product(y[, z]), x.add_derivers(..) and x + y over
+   operands that carry constants / derivers (NextPHist, LawObjHistory): an operand of a product, the sweep derivers
+   were added to and every earlier result are re-observed afterwards.  Every single case with derivers is also built
+   as Sweep(items, dims, exclude, constants).add_derivers(**derivers) and compared with the exported `added`.
 Python only builds the real objects, interprets the named deriver/exclude family and compares values.
 """
 from __future__ import annotations
@@ -39,11 +43,12 @@ LEVEL = "model_checking"
 
 NO_DIMS = [["#none"]]
 INVS = {
-    "single": "InvWellFormed InvExactlyOnce InvRowMajor InvFinish InvOrderFree InvLen Emit",
+    "single": "InvWellFormed InvExactlyOnce InvRowMajor InvFinish InvOrderFree InvLen InvAddDerivers Emit",
     "multi": "InvWellFormed InvProduct InvConcat InvSums InvLen Emit",
     "filter": "InvWellFormed InvFiltered InvLen Emit",
     "count": "InvWellFormed InvCount Emit",
     "hist": "InvWellFormed InvHistory Emit",
+    "phist": "InvWellFormed InvObjHistory InvLen Emit",
 }
 CFG = """SPECIFICATION {spec}
 CONSTANTS Mode = "{mode}" MinKeys = {minkeys} MaxKeys = {maxkeys} MaxLen = {maxlen} MaxEmpty = {maxempty}
@@ -83,6 +88,7 @@ QUICK = [
     Slice("filter3", "filter", 0, 3, opts="ders2", maxempty=1, nshards=3),
     Slice("count3", "count", 0, 3, opts="two", maxempty=1, nshards=1),
     Slice("hist3", "hist", 0, 3, maxempty=0, nops=3, nshards=4, maxsteps=3),
+    Slice("phist3", "phist", 0, 3, nops=3, nshards=4, maxsteps=3),
 ]
 THOROUGH = [
     Slice("single4", "single", 4, 4, opts="few", nshards=32),
@@ -100,6 +106,7 @@ THOROUGH = [
     Slice("count3-pandas", "count", 0, 3, opts="none", maxempty=1, nshards=6, pandas=True),
     Slice("triples3-allshapes", "multi", 3, 3, opts="none", nops=3, nshards=2, shapes="all"),
     Slice("hist3-empties", "hist", 0, 3, maxempty=1, nops=3, nshards=8, maxsteps=3),
+    Slice("phist4-zipped", "phist", 4, 4, nops=3, nshards=8, maxsteps=3),
 ]
 JVM_ENV = {"JAVA_TOOL_OPTIONS": "-XX:ParallelGCThreads=2 -XX:CICompilerCount=2"}  # 16 JVMs side by side
 
@@ -248,6 +255,14 @@ def check_single(c: dict, o: dict) -> list:
                 o["combos"], o["ordered"], o["err"])
     if not o["err"]:  # len of a sweep whose enumeration raises: no claim
         _len_check(res, dict(sig, check="len", itemless=not s["items"]), "len", lambda: len(build_sweep(s)), o["len"])
+    if s["ders"] and not o["err"]:  # the same sweep made by add_derivers from the sweep without derivers (out.added)
+        def added():
+            return build_sweep(dict(s, ders=[])).add_derivers(**a["derivers"])
+
+        dsig = dict(sig, check="add_derivers")
+        _list_check(res, dsig, "add_derivers.list", lambda: added().list(), o["added"], o["ordered"])
+        _list_check(res, dsig, "iter(add_derivers)", lambda: list(iter(added())), o["added"], o["ordered"])
+        _len_check(res, dict(dsig, check="add_derivers_len"), "len(add_derivers)", lambda: len(added()), len(o["added"]))
     return res
 
 
@@ -372,8 +387,12 @@ def _register_shapes(prints: list[str]) -> None:
 
 # ------------------------------------------------------------------------------------------------
 # histories (Sweep.tla: StoreInit / StepStore, MC_Sweep.tla: NextHist) on real objects that stay alive
-def _kind(i: int, n: int) -> str:
-    return "plain" if i <= n else "sum"
+def _kind(i: int, n: int, ops: list | None = None) -> str:
+    """What object i is: an operand ("plain") or the result of a step ("sum" for +, combine and MultiSweep)."""
+    if i <= n:
+        return "plain"
+    f = ops[i - n - 1]["f"] if ops else "sum"
+    return {"product": "product", "derive": "derived"}.get(f, "sum")
 
 
 def _apply(op: dict, objs: list, sp: str):
@@ -381,6 +400,12 @@ def _apply(op: dict, objs: list, sp: str):
     args = [objs[i - 1] for i in op["a"]]
     if op["f"] == "sum":
         return args[0] + args[1] if sp == "+" else args[0].combine(args[1])
+    if op["f"] == "product":  # Sweep.tla: PStep
+        return args[0].product(*args[1:])
+    if op["f"] == "derive":
+        return args[0].add_derivers(**{d["k"]: _deriver(d) for d in op["d"]})
+    if op["f"] != "multi":
+        raise MachineryError(f"unknown step {op}")
     return MultiSweep(*args)
 
 
@@ -399,7 +424,7 @@ def check_hist(c: dict, o: dict) -> list:
     difference and the role of the differing object in it (result, left/right argument, other)."""
     ss, sp, ops, exp, ordered = c["ss"], c["sp"], c["ops"], o["objs"], o["ordered"]
     n = len(ss)
-    sig0 = {"check": "history", "spelling": sp, "ordered": ordered}
+    sig0 = {"check": "history" if c["kind"] == "hist" else "obj_history", "spelling": sp, "ordered": ordered}
 
     def run_all():
         objs = [build_sweep(s) for s in ss]
@@ -419,8 +444,21 @@ def check_hist(c: dict, o: dict) -> list:
             a = op["a"]
             sig.update(step=op["f"], same_arg_twice=len(set(a)) < len(a), arg_sum=any(i > n for i in a))
             if op["f"] == "sum":
-                sig.update(left=_kind(a[0], n), right=_kind(a[1], n))
+                sig.update(left=_kind(a[0], n, ops), right=_kind(a[1], n, ops))
                 roles = {a[1]: "right", a[0]: "left"}
+            elif op["f"] == "product":  # a[0] is the receiver: a[0].product(a[1], ..)
+                sws = [exp[i - 1]["sw"] for i in a]
+                sig.update(left=_kind(a[0], n, ops), right=_kind(a[1], n, ops), nargs=len(a),
+                           several_consts=sum(bool(w["consts"]) for w in sws) >= 2,
+                           several_ders=sum(bool(w["ders"]) for w in sws) >= 2)
+                roles = {i: "argument" for i in a[2:]}
+                roles.update({a[1]: "right", a[0]: "left"})
+            elif op["f"] == "derive":
+                w = exp[a[0] - 1]["sw"]
+                sig.update(left=_kind(a[0], n, ops), receiver_consts=bool(w["consts"]), receiver_excl=bool(w["excl"]),
+                           receiver_dims=_dims_class(dict(w, sstr=False)),
+                           reads_const=any(x in {c_["k"] for c_ in w["consts"]} for d in op["d"] for x in d["a"]))
+                roles = {a[0]: "left"}
             else:
                 roles = {i: "argument" for i in a}
             r, exc = _call(lambda: _apply(op, objs, sp))
@@ -443,6 +481,11 @@ def check_hist(c: dict, o: dict) -> list:
 
 def _step_text(op: dict, new: int, sp: str) -> str:
     a = op["a"]
+    if op["f"] == "product":
+        return f"o{new} = o{a[0]}.product({', '.join(f'o{i}' for i in a[1:])})"
+    if op["f"] == "derive":
+        ders = ", ".join(f"{d['k']}={d['f']}({', '.join(d['a'])})" for d in op["d"])
+        return f"o{new} = o{a[0]}.add_derivers({ders})"
     if op["f"] == "sum":
         return f"o{new} = o{a[0]} + o{a[1]}" if sp == "+" else f"o{new} = o{a[0]}.combine(o{a[1]})"
     return f"o{new} = MultiSweep({', '.join(f'o{i}' for i in a)})"
@@ -494,7 +537,7 @@ def check_case(rec: dict, pandas: bool = False) -> list:
         return check_filter(c, o)
     if kind == "count":
         return check_count(c, o, pandas)
-    if kind == "hist":
+    if kind in ("hist", "phist"):
         return check_hist(c, o)
     raise MachineryError(f"unknown case kind {kind}")
 
@@ -507,7 +550,7 @@ def nontrivial(rec: dict) -> bool:
         return len(o["product"]) >= 2
     if kind == "filter":
         return len(o["filtered"]) >= 2
-    if kind == "hist":  # at least one step, and its result enumerates something
+    if kind in ("hist", "phist"):  # at least one step, and its result enumerates something
         return bool(rec["c"]["ops"]) and len(o["objs"][-1]["combos"]) >= 2
     return any(sum(r["n"] for r in d["tab"]) >= 2 for d in o["counts"])
 
@@ -580,9 +623,9 @@ def _corrupt(rec: dict) -> str | None:
         d = next(d for d in o["counts"] if d["tab"])
         d["tab"][0]["n"] += 1
         return "count: one count + 1"
-    if kind == "hist" and rec["c"]["ops"] and o["objs"][-1]["combos"]:
+    if kind in ("hist", "phist") and rec["c"]["ops"] and o["objs"][-1]["combos"]:
         o["objs"][-1]["combos"].pop()
-        return "hist: last combination of the newest object dropped"
+        return f"{kind}: last combination of the newest object dropped"
     return None
 
 
@@ -617,6 +660,16 @@ def selftest_binding(ctx: Ctx, kept: dict[str, list[dict]]) -> None:
             ctx.selftest("expected-value corruption (single: len + 1)", got == base | {victim},
                          f"case {victim}: rejected={sorted(got)} expected={sorted(base | {victim})}")
             break
+    # add_derivers: the list required of the add_derivers spelling of a single case
+    for victim, r in enumerate(recs):
+        if victim not in base and r["out"]["added"]:
+            mut = copy.deepcopy(recs)
+            c = mut[victim]["out"]["added"][0]
+            c[sorted(c)[-1]] += 1
+            got = _mismatch_set(mut)
+            ctx.selftest("expected-value corruption (single: added[0], one value + 1)", got == base | {victim},
+                         f"case {victim}: rejected={sorted(got)} expected={sorted(base | {victim})}")
+            break
     # sums: the expected concatenation of a multi case; the expected list of an EARLIER object of a history
     recs = kept.get("multi", [])[:90]
     base = _mismatch_set(recs)
@@ -638,6 +691,19 @@ def selftest_binding(ctx: Ctx, kept: dict[str, list[dict]]) -> None:
             ctx.selftest("expected-value corruption (hist: len of the first result + 1)", got == base | {victim},
                          f"case {victim}: rejected={sorted(got)} expected={sorted(base | {victim})}")
             break
+    # products / add_derivers over time: the expected list of an OPERAND after it was used in a product
+    recs = kept.get("phist", [])[:90]
+    base = _mismatch_set(recs)
+    for victim, r in enumerate(recs):
+        ops = r["c"]["ops"]
+        if victim not in base and ops and ops[0]["f"] == "product" and r["out"]["objs"][ops[0]["a"][0] - 1]["combos"]:
+            mut = copy.deepcopy(recs)
+            ob = mut[victim]["out"]["objs"][ops[0]["a"][0] - 1]
+            ob["combos"][0] = dict(ob["combos"][0], x9=7)  # as if the operand had picked up a foreign constant
+            got = _mismatch_set(mut)
+            ctx.selftest("expected-value corruption (phist: a constant added to the receiver of the first product)",
+                         got == base | {victim}, f"case {victim}: rejected={sorted(got)} expected={sorted(base | {victim})}")
+            break
 
 
 # ------------------------------------------------------------------------------------------------
@@ -647,7 +713,9 @@ def run(ctx: Ctx) -> None:
     ctx.rule = ("case = one exported state of MC_Sweep: a sweep description (items, dims, constants, derivers, "
                 "exclude) [single], 2-3 such sweeps with disjoint keys [multi: product, +, MultiSweep, combine], a sweep and "
                 "a key set [filter], a sweep and a pipeline [count], three sweeps and a history of <= 3 sums over them and "
-                "over earlier results, every object re-observed after every step [hist]; every multi case is also "
+                "over earlier results, every object re-observed after every step [hist], three sweeps carrying constants / "
+                "derivers and a history of <= 3 steps product / add_derivers / + over them and over earlier results, every "
+                "object re-observed [phist]; every single case with derivers is also built through add_derivers; every multi case is also "
                 "evaluated through every exported sum expression (nestings/spellings of +, combine, MultiSweep); the "
                 "universe is every value of the TLA+ set (hist: every reachable state) for the slice constants listed under `slices`; non-trivial = the required list (combinations / product / "
                 "projections) has >= 2 elements, for count: some dependency counts >= 2 combinations")
@@ -661,7 +729,10 @@ def run(ctx: Ctx) -> None:
         "MultiSweep(x) nodes; triples: one spelling per expression); histories: <= 3 steps (x + y | x.combine(y) per "
         "history, MultiSweep of 0..2 objects) over one fixed operand triple (two in the thorough tier), from the second "
         "step on a step takes at least one earlier result; sweeps are values: a step may change no existing object",
-        "don't-care (no claim): order when dims is not in item order; product with a Sweep({}) operand; len() of a sweep "
+        "product / add_derivers histories: <= 3 steps over two fixed operand triples (constants on every operand; derivers "
+        "on every operand; thorough: a third with a two-key zipped operand), products of 2-3 single sweeps with disjoint "
+        "keys, add_derivers with one deriver (of two item keys, or reading a constant) on a single sweep without derivers",
+        "don't-care (no claim): add_derivers on a sweep that already has derivers (the code replaces them); order when dims is not in item order; product with a Sweep({}) operand; len() of a sweep "
         "whose zipped lists differ in length; filtered_sweep with keys outside the sweep or an empty key set; products/sums "
         "of sweeps whose enumeration raises",
     ]
